@@ -332,3 +332,27 @@ Proof.
     assert (L4t0 : look s4 t0 = Some D) by (unfold s4, renamed; cbn [look]; rewrite Hp_t0, Htc_t0; exact L3t0).
     rewrite (rmtree_ok s4 t0 (snoc_not_nil _ _) L4t0). exact I.
 Qed.
+
+(* ------------------------------------------------------------------ why the cache side conditions are needed *)
+(* The weak invariant and the data view do not say anything about reserved paths.  Two well-formed trees on which
+   a FAULT-FREE item upload raises: (1) `.Radicale.cache` of the collection is a regular file: the item is stored,
+   then os.makedirs of the cache folder fails -> ValueError (the PUT is answered 400 although the item changed);
+   (2) a left-over temp directory with the name mkdtemp would pick (the model numbers temp names per run from 0;
+   the real mkdtemp retries with another random name, so (2) is an artefact of the numbering, excluded by
+   `tmp_free` / by numbering residue from 1000 in the harness). *)
+Definition bad_cal : path := [Root; Safe 2; Safe 3].
+Definition bad_fs1 : fs := init_fs [([], D); ([Root], D); ([Root; Safe 2], D); (bad_cal, D); (bad_cal ++ [Cache], F 5)].
+Definition bad_fs2 : fs := init_fs [([], D); ([Root], D); ([Root; Safe 2], D); (bad_cal, D); (bad_cal ++ [Tmp 0], D)].
+Definition lay0 : layout := {| l_item := false; l_hist := false |}.
+
+Example upload_raises_when_cache_is_a_file :
+  fs_inv_weak bad_fs1 /\ look bad_fs1 bad_cal = Some D
+  /\ snd (machine_run no_fault (unit_prog lay0 (UUpload bad_cal (Safe 4) 9 [])) (start bad_fs1)) = OExn EVal
+  /\ look (c_st (fst (machine_run no_fault (unit_prog lay0 (UUpload bad_cal (Safe 4) 9 [])) (start bad_fs1)))) (bad_cal ++ [Safe 4]) = Some (F 9).
+Proof. split; [apply init_fs_inv; reflexivity|]. vm_compute. repeat split. Qed.
+
+Example upload_raises_on_temp_name_clash :
+  fs_inv_weak bad_fs2
+  /\ snd (machine_run no_fault (unit_prog lay0 (UUpload bad_cal (Safe 4) 9 [])) (start bad_fs2)) = OExn EVal
+  /\ look (c_st (fst (machine_run no_fault (unit_prog lay0 (UUpload bad_cal (Safe 4) 9 [])) (start bad_fs2)))) (bad_cal ++ [Safe 4]) = None.
+Proof. split; [apply init_fs_inv; reflexivity|]. vm_compute. repeat split. Qed.
